@@ -156,7 +156,22 @@ def run(ctx):
     subs = [e for e in uniq_events(paths, "SUB") if e["m"] == "_sizeof"]
     ok = len(subs) == 1 and subs[0]["target"] == SELF and subs[0]["path"] == N.const("(sizeof)") and all(p.retval == subs[0]["res"] for p in paths if p.returns)
     ctx.ob("C05.R4", fi, ok, "sizeof() returns _sizeof(fresh context, '(sizeof)')", key="entry")
-    ctx.floor("C05.R4", 3)
+    # the size probe the lazy classes use is never less specific than the class's own size: the _actualsize a class resolves to is its own,
+    # or is defined at or below the class that defines its _sizeof, or is Construct's default (which asks self._sizeof)
+    n4 = 0
+    for ci in M.construct_classes():
+        if ci.relpath.endswith("debug.py"):
+            continue
+        fa, fs = M.resolve(ci.name, "_actualsize"), M.resolve(ci.name, "_sizeof")
+        if fa is None or fs is None or fa.cls is None or fs.cls is None:
+            continue
+        mro = [c.name for c in ci.mro]
+        ia, isz = mro.index(fa.cls.name), mro.index(fs.cls.name)
+        ok = fa.cls.name == "Construct" or ia <= isz
+        n4 += 1
+        ctx.ob("C05.R4", ci.name, ok, "%s: _actualsize comes from %s, _sizeof from %s -- a probe inherited from above the class that defines the size would measure something else (e.g. only the inner construct)" % (
+            ci.name, fa.cls.name, fs.cls.name), key="%s probe specificity" % ci.name, loc=ci.relpath)
+    ctx.floor("C05.R4", 3 + 60)
 
     # ---------------------------------------------------------------- R5 the size a transforming macro reports is the inner size through the unit ratio (shared with C10.R1/R2)
     from . import C10
